@@ -255,7 +255,7 @@ struct SyncRig {
 
 impl SyncRig {
   fn new() -> Option<SyncRig> {
-    let dp = DomainParticipant::new(113).ok()?;
+    let dp = util::participant(94);
     let qos = QosPolicies::qos_none();
     let publisher = dp.create_publisher(&qos).ok()?;
     let topic = dp
